@@ -206,16 +206,17 @@ structure Same (s s' : St) : Prop where
   method : s'.method = s.method
   pc : s'.pc = s.pc
   stack : SRel s.stack s'.stack
+  timeValid : s'.timeValid = s.timeValid
 
-theorem Same.refl (s : St) : Same s s := ⟨rfl, rfl, rfl, rfl, rfl, rfl, rfl, rfl, SRel.refl _⟩
+theorem Same.refl (s : St) : Same s s := ⟨rfl, rfl, rfl, rfl, rfl, rfl, rfl, rfl, SRel.refl _, rfl⟩
 
 theorem Same.trans {a b c : St} (h1 : Same a b) (h2 : Same b c) : Same a c :=
   ⟨h2.heap.trans h1.heap, h2.time.trans h1.time, h2.ktimer.trans h1.ktimer, h2.timerfd.trans h1.timerfd,
    h2.lastAbs.trans h1.lastAbs, h2.lastAbsCount.trans h1.lastAbsCount, h2.method.trans h1.method,
-   h2.pc.trans h1.pc, h1.stack.trans h2.stack⟩
+   h2.pc.trans h1.pc, h1.stack.trans h2.stack, h2.timeValid.trans h1.timeValid⟩
 
 /-- closes `Same s { s with … }` when none of the relevant fields is updated -/
-macro "same_rfl" : tactic => `(tactic| exact ⟨rfl, rfl, rfl, rfl, rfl, rfl, rfl, rfl, SRel.refl _⟩)
+macro "same_rfl" : tactic => `(tactic| exact ⟨rfl, rfl, rfl, rfl, rfl, rfl, rfl, rfl, SRel.refl _, rfl⟩)
 
 theorem same_epollNotify (s : St) (f : FdId) : Same s (epollNotify s f) := by
   unfold epollNotify; same_rfl
@@ -246,7 +247,7 @@ theorem same_fdRegisterCore (s : St) (f : FdId) (a b c : Bool) : Same s (fdRegis
 theorem same_fdUnregisterCore (s : St) (f : FdId) : Same s (fdUnregisterCore s f) := by
   unfold fdUnregisterCore
   extract_lets o s1 s2 s3
-  have h1 : Same s s1 := ⟨rfl, rfl, rfl, rfl, rfl, rfl, rfl, rfl, SRel.map (nice_eraseActive f) _⟩
+  have h1 : Same s s1 := ⟨rfl, rfl, rfl, rfl, rfl, rfl, rfl, rfl, SRel.map (nice_eraseActive f) _, rfl⟩
   have h2 : Same s1 s2 := same_notifyFd s1 f
   have h3 : Same s2 s3 := by
     show Same s2 (if _ then _ else _)
@@ -270,11 +271,11 @@ theorem same_taskRegisterCore (s : St) (k : TaskId) : Same s (taskRegisterCore s
   simp only []
   split
   · same_rfl
-  · exact ⟨rfl, rfl, rfl, rfl, rfl, rfl, rfl, rfl, SRel.map (nice_appendTaskBatch k) _⟩
+  · exact ⟨rfl, rfl, rfl, rfl, rfl, rfl, rfl, rfl, SRel.map (nice_appendTaskBatch k) _, rfl⟩
 
 theorem same_taskUnregisterCore (s : St) (k : TaskId) : Same s (taskUnregisterCore s k) := by
   unfold taskUnregisterCore
-  exact ⟨rfl, rfl, rfl, rfl, rfl, rfl, rfl, rfl, SRel.map (nice_eraseTask k) _⟩
+  exact ⟨rfl, rfl, rfl, rfl, rfl, rfl, rfl, rfl, SRel.map (nice_eraseTask k) _, rfl⟩
 
 theorem same_foldl_flush (l : List FdId) : ∀ s : St, Same s (l.foldl epollFlushOne s) := by
   induction l with
@@ -354,6 +355,19 @@ def WaitOk (s : St) (abs : Option TS) (km : Bool) : Prop :=
   if km = true then abs = none ∧ KOk s
   else (s.method = .epollTimerfd → s.lastAbsCount ≠ 5) ∧ AbsOk s.heap abs
 
+/-- program points at which the loop is about to use (or has just used) its clock value -/
+def needsTV : Pc → Bool
+  | .run .collect => true
+  | .run (.wait abs _) => abs.isSome
+  | .waiting abs _ => abs.isSome
+  | _ => false
+
+/-- freshness of the clock: a valid cached time was read after the last wait returned; so was the
+time an expired batch was collected against; and the clock is valid where it is used -/
+def Fr (μ : M) (s : St) (batch : List Nat) : Prop :=
+  (s.timeValid = true → μ.fresh = true) ∧ (batch ≠ [] → μ.fresh = true) ∧
+  (needsTV s.pc = true → s.timeValid = true)
+
 structure GoodB (μ : M) (s : St) (batch : List Nat) : Prop where
   alive : μ.dead = false
   pend : μ.pending = none
@@ -369,6 +383,7 @@ structure GoodB (μ : M) (s : St) (batch : List Nat) : Prop where
   lastNm : Nm s.lastAbs
   kt : KT s
   wait : ∀ abs km, waitArgs s.pc = some (abs, km) → WaitOk s abs km
+  fr : Fr μ s batch
 
 def Good (μ : M) (s : St) : Prop := ∃ b, GoodB μ s b
 
@@ -426,9 +441,11 @@ theorem WaitOk.congr {s s' : St} {abs : Option TS} {km : Bool} (h : WaitOk s abs
 
 theorem GoodB.transfer {μ : M} {s s' : St} {b : List Nat} (g : GoodB μ s b)
     (hheap : s'.heap = s.heap) (htime : s'.time = s.time) (hla : Nm s'.lastAbs) (hkt : KT s')
-    (hstk : Stk s' b) (hw : ∀ abs km, waitArgs s'.pc = some (abs, km) → WaitOk s' abs km) :
+    (hstk : Stk s' b) (hw : ∀ abs km, waitArgs s'.pc = some (abs, km) → WaitOk s' abs km)
+    (htvm : s'.timeValid = true → s.timeValid = true) (htv : needsTV s'.pc = true → s'.timeValid = true) :
     GoodB μ s' b := by
-  refine ⟨g.alive, g.pend, ?_, ?_, ?_, hstk, g.bnodup, ?_, ?_, ?_, ?_, hla, hkt, hw⟩
+  refine ⟨g.alive, g.pend, ?_, ?_, ?_, hstk, g.bnodup, ?_, ?_, ?_, ?_, hla, hkt, hw,
+    ⟨fun h => g.fr.1 (htvm h), g.fr.2.1, htv⟩⟩
   · rw [htime]; exact g.clock
   · rw [htime]; exact g.timeNN
   · rw [hheap]; exact g.hinv
@@ -441,9 +458,11 @@ theorem Good.transfer {μ : M} {s s' : St} (g : Good μ s)
     (hheap : s'.heap = s.heap) (htime : s'.time = s.time) (hkt : s'.ktimer = s.ktimer)
     (htfd : s'.timerfd = s.timerfd) (hla : s'.lastAbs = s.lastAbs) (hlc : s'.lastAbsCount = s.lastAbsCount)
     (hm : s'.method = s.method) (hstk : ∀ b, Stk s b → Stk s' b)
-    (hw : waitArgs s'.pc = none ∨ waitArgs s'.pc = waitArgs s.pc) : Good μ s' := by
+    (hw : waitArgs s'.pc = none ∨ waitArgs s'.pc = waitArgs s.pc)
+    (htvm : s'.timeValid = true → s.timeValid = true) (htv : needsTV s'.pc = true → s'.timeValid = true) :
+    Good μ s' := by
   obtain ⟨b, g⟩ := g
-  refine ⟨b, g.transfer hheap htime (hla ▸ g.lastNm) ?_ (hstk b g.stk) ?_⟩
+  refine ⟨b, g.transfer hheap htime (hla ▸ g.lastNm) ?_ (hstk b g.stk) ?_ htvm htv⟩
   · intro h1 h2
     rw [htfd, hkt, hla]
     exact g.kt (hm ▸ h1) (hlc ▸ h2)
@@ -453,9 +472,14 @@ theorem Good.transfer {μ : M} {s s' : St} (g : Good μ s)
     · rw [hw] at h
       exact (g.wait abs km h).congr hheap htfd hkt (fun a c => ⟨hm ▸ a, hlc ▸ c⟩)
 
-theorem Good.same {μ : M} {s s' : St} (g : Good μ s) (h : Same s s') : Good μ s' :=
-  g.transfer h.heap h.time h.ktimer h.timerfd h.lastAbs h.lastAbsCount h.method (fun _ => Stk.same h)
-    (Or.inr (by rw [h.pc]))
+theorem Good.same {μ : M} {s s' : St} (g : Good μ s) (h : Same s s') : Good μ s' := by
+  have htv : needsTV s'.pc = true → s'.timeValid = true := by
+    obtain ⟨b, gb⟩ := g
+    intro h'
+    rw [h.timeValid]
+    exact gb.fr.2.2 (h.pc ▸ h')
+  exact g.transfer h.heap h.time h.ktimer h.timerfd h.lastAbs h.lastAbsCount h.method (fun _ => Stk.same h)
+    (Or.inr (by rw [h.pc])) (fun e => h.timeValid ▸ e) htv
 
 /-! ## folding the monitor -/
 
@@ -604,6 +628,18 @@ theorem kok_of_arm {s : St} {a : TS} (htfd : s.timerfd = true) (hk : s.ktimer = 
   · left; simp
   · right; exact h
 
+theorem timeoutCheck_tv (s : St) (abs : Option TS) : (timeoutCheck s abs).1.timeValid = s.timeValid := by
+  unfold timeoutCheck
+  extract_lets cmp s1 s2 v
+  have h1 : s1.timeValid = s.timeValid := by
+    show (if _ then _ else _ : St).timeValid = _
+    split <;> rfl
+  have h2 : s2.timeValid = s1.timeValid := by
+    show (if _ then _ else _ : St).timeValid = _
+    split <;> rfl
+  repeat' split
+  all_goals first | rfl | exact h1 | exact h2.trans h1
+
 theorem timeoutCheck_spec (s : St) (abs : Option TS) (hkt : KT s) (hla : Nm s.lastAbs)
     (habs : AbsOk s.heap abs) (hm : s.method = .epollTimerfd) :
     (timeoutCheck s abs).1.heap = s.heap ∧ (timeoutCheck s abs).1.time = s.time ∧
@@ -688,13 +724,15 @@ theorem timeoutCheck_spec (s : St) (abs : Option TS) (hkt : KT s) (hla : Nm s.la
 /-- `Good` for a step that changes only `pc` (and irrelevant fields), stack unchanged -/
 macro "good_pc" g:term "," hpc:term : tactic =>
   `(tactic| exact Good.transfer $g rfl rfl rfl rfl rfl rfl rfl
-      (fun _ => Stk.mono rfl (by simp [pcT, goto, $hpc:term])) (by simp [waitArgs, goto, $hpc:term]))
+      (fun _ => Stk.mono rfl (by simp [pcT, goto, $hpc:term])) (by simp [waitArgs, goto, $hpc:term])
+      (fun h => h) (by first | (simp [needsTV, goto, $hpc:term]; done) | simp_all [needsTV, goto]))
 
 /-- `Good` for a step that pushes / pops non-timer frames; the source `pc` is not a timer point -/
 macro "good_stk" g:term "," hpc:term : tactic =>
   `(tactic| exact Good.transfer $g rfl rfl rfl rfl rfl rfl rfl
       (fun _ => Stk.renoT (by simp [pcT, $hpc:term]) (by intro h; simp_all [isT, noT_tail, goto]))
-      (by simp [waitArgs, goto, $hpc:term]))
+      (by simp [waitArgs, goto, $hpc:term])
+      (fun h => h) (by first | (simp [needsTV, goto, $hpc:term]; done) | simp_all [needsTV, goto]))
 
 theorem bounded_timeoutOf (s : St) (a exp : TS) (kt : Option (Option TS)) (hn : Nm s.time) (ha : Nm a)
     (h : ns a ≤ ns exp) : bounded s.time (timeoutOf s (some a)) kt exp = true := by
@@ -812,7 +850,8 @@ theorem internal_collect {μ : M} {s : St} (g : Good μ s) (hpc : s.pc = .run .c
         · exact Or.inl ((hon t).2 ⟨h, hg⟩)
       · exact absurd h (hnz t)
   refine Acc.nil (Or.inr ⟨batch, gb.alive, gb.pend, gb.clock, gb.timeNN, hinv', ?_, hnd, ?_, ?_, ?_, ?_,
-    gb.lastNm, gb.kt, ?_⟩)
+    gb.lastNm, gb.kt, ?_,
+    ⟨gb.fr.1, fun _ => gb.fr.1 (gb.fr.2.2 (by simp [needsTV, hpc])), by simp [needsTV]⟩⟩)
   · exact Or.inr ⟨s.stack, rfl, hnoT, by simp [pcT]⟩
   · intro t
     constructor
@@ -842,7 +881,8 @@ theorem internal_popTimer {μ : M} {s : St} (g : Good μ s) (_hpc : s.pc = .run 
   · next rest hst =>
     obtain ⟨hb, hrest⟩ := gb.stk.top hst
     subst hb
-    refine Acc.nil (Or.inr ⟨[], gb.transfer rfl rfl gb.lastNm gb.kt (Or.inl ⟨hrest, rfl⟩) ?_⟩)
+    refine Acc.nil (Or.inr ⟨[], gb.transfer rfl rfl gb.lastNm gb.kt (Or.inl ⟨hrest, rfl⟩) ?_ (fun h => h)
+      (by simp [needsTV])⟩)
     intro abs km h; simp [waitArgs] at h
   · next t r rest hst =>
     obtain ⟨hb, hrest⟩ := gb.stk.top hst
@@ -857,9 +897,11 @@ theorem internal_popTimer {μ : M} {s : St} (g : Good μ s) (_hpc : s.pc = .run 
       have hfind := find_reg hmem (fun ex' h => ((gb.reg _ _).1 h).2.symm)
       have hle : (expOf s.heap t).gt μ.clock = false := by
         rw [gb.clock]; exact gb.ble t (by simp)
+      have hfresh : μ.fresh = true := gb.fr.2.1 (by simp)
       refine Acc.one (μ1 := { μ with reg := μ.reg.filter (·.1 != t) }) ?_ (Or.inr ⟨r, ?_⟩)
-      · simp [mstep, Ivy.Mon.C04.step, gb.alive, hfind, hle]
-      · refine ⟨gb.alive, gb.pend, gb.clock, gb.timeNN, f1, ?_, hnd.2, ?_, ?_, ?_, ?_, gb.lastNm, gb.kt, ?_⟩
+      · simp [mstep, Ivy.Mon.C04.step, gb.alive, hfind, hle, hfresh]
+      · refine ⟨gb.alive, gb.pend, gb.clock, gb.timeNN, f1, ?_, hnd.2, ?_, ?_, ?_, ?_, gb.lastNm, gb.kt, ?_,
+          ⟨gb.fr.1, fun _ => hfresh, by simp [needsTV]⟩⟩
         · exact Or.inr ⟨rest, rfl, hrest, by simp [pcT]⟩
         · intro u
           rw [f3 u, gb.bidx u]
@@ -910,12 +952,14 @@ theorem internal_prepWait {μ : M} {s : St} (g : Good μ s) (hpc : s.pc = .run .
   · next hm =>
     have hm : s.method = .epollTimerfd := by simpa using hm
     obtain ⟨h1, h2, h3, h4, h5, h6, h7, h8⟩ := timeoutCheck_spec s abs gb.kt gb.lastNm habs hm
-    generalize timeoutCheck s abs = r at h1 h2 h3 h4 h5 h6 h7 h8 ⊢
+    have h9 := timeoutCheck_tv s abs
+    generalize timeoutCheck s abs = r at h1 h2 h3 h4 h5 h6 h7 h8 h9 ⊢
     obtain ⟨s1, r⟩ := r
-    simp only [] at h1 h2 h3 h4 h5 h6 h7 h8 ⊢
+    simp only [] at h1 h2 h3 h4 h5 h6 h7 h8 h9 ⊢
     cases r
     · simp only [Bool.false_eq_true, if_false]
-      refine Acc.nil (Or.inr ⟨[], gb.transfer h1 h2 h5 h6 (Or.inl ⟨h4 ▸ hnoT, rfl⟩) ?_⟩)
+      refine Acc.nil (Or.inr ⟨[], gb.transfer h1 h2 h5 h6 (Or.inl ⟨h4 ▸ hnoT, rfl⟩) ?_ (fun h => h9 ▸ h)
+        (by simp [needsTV])⟩)
       intro abs' km h
       simp only [waitArgs, Option.some.injEq, Prod.mk.injEq] at h
       obtain ⟨e1, e2⟩ := h
@@ -923,7 +967,8 @@ theorem internal_prepWait {μ : M} {s : St} (g : Good μ s) (hpc : s.pc = .run .
       simp only [WaitOk, Bool.false_eq_true, if_false]
       exact ⟨h8 rfl, h1 ▸ habs⟩
     · simp only [if_true]
-      refine Acc.nil (Or.inr ⟨[], gb.transfer h1 h2 h5 h6 (Or.inl ⟨h4 ▸ hnoT, rfl⟩) ?_⟩)
+      refine Acc.nil (Or.inr ⟨[], gb.transfer h1 h2 h5 h6 (Or.inl ⟨h4 ▸ hnoT, rfl⟩) ?_ (fun h => h9 ▸ h)
+        (by simp [needsTV])⟩)
       intro abs' km h
       simp only [waitArgs, Option.some.injEq, Prod.mk.injEq] at h
       obtain ⟨e1, e2⟩ := h
@@ -933,7 +978,8 @@ theorem internal_prepWait {μ : M} {s : St} (g : Good μ s) (hpc : s.pc = .run .
       exact ⟨rfl, h7 rfl⟩
   · next hm =>
     have hm : s.method ≠ .epollTimerfd := by simpa using hm
-    refine Acc.nil (Or.inr ⟨[], gb.transfer rfl rfl gb.lastNm gb.kt (Or.inl ⟨hnoT, rfl⟩) ?_⟩)
+    refine Acc.nil (Or.inr ⟨[], gb.transfer rfl rfl gb.lastNm gb.kt (Or.inl ⟨hnoT, rfl⟩) ?_ (fun h => h)
+      (by simp [needsTV])⟩)
     intro abs' km h
     simp only [waitArgs, Option.some.injEq, Prod.mk.injEq] at h
     obtain ⟨e1, e2⟩ := h
@@ -964,6 +1010,9 @@ theorem internal_wait {μ : M} {s : St} (g : Good μ s) (abs : Option TS) (km : 
   obtain ⟨hnoT, hb0⟩ := gb.stk.elim (by simp [pcT, hpc])
   subst hb0
   simp only [internal]
+  have htv0 : abs.isSome = true → s.timeValid = true := by
+    have := gb.fr.2.2
+    simpa [needsTV, hpc] using this
   refine Acc.one (μ1 := μ) ?_ (Or.inr (by good_pc g0, hpc))
   have hw := gb.wait abs km (by simp [waitArgs, hpc])
   have hall : ∀ p ∈ μ.reg, bounded μ.clock (timeoutOf s abs) (if s.timerfd then some s.ktimer else none) p.2 = true := by
@@ -996,7 +1045,11 @@ theorem internal_wait {μ : M} {s : St} (g : Good μ s) (abs : Option TS) (km : 
     rw [List.find?_eq_none]
     intro p hp
     simp [hall p hp]
-  simp [mstep, Ivy.Mon.C04.step, gb.alive, hfind]
+  have hfr : (!μ.fresh && !μ.reg.isEmpty && Ivy.Mon.C04.finitePos (timeoutOf s abs)) = false := by
+    cases abs with
+    | none => simp [timeoutOf, Ivy.Mon.C04.finitePos]
+    | some a => simp [gb.fr.1 (htv0 rfl)]
+  simp [mstep, Ivy.Mon.C04.step, gb.alive, hfind, hfr]
 
 theorem internal_ok {μ : M} {s : St} (h : R μ s) (b : Block) (hpc : s.pc = .run b) :
     Acc μ ((internal s b).2.map Ev.out) (internal s b).1 := by
@@ -1013,7 +1066,7 @@ theorem internal_ok {μ : M} {s : St} (h : R μ s) (b : Block) (hpc : s.pc = .ru
 /-! ## API calls -/
 
 theorem api_same (s : St) (a : Api) (h1 : ∀ t e, a ≠ .timerRegister t e) (h2 : ∀ t, a ≠ .timerUnregister t)
-    (h3 : a ≠ .main) (h4 : a ≠ .validateNow) :
+    (h3 : a ≠ .main) (h4 : a ≠ .validateNow) (h5 : a ≠ .invalidateNow) :
     (∃ msg, api s a = ({ s with pc := .dead }, [Out.fatal msg])) ∨
     (Same s (api s a).1 ∧ ((api s a).2 = [] ∨ ∃ v, (api s a).2 = [Out.ret v])) := by
   cases a with
@@ -1100,7 +1153,7 @@ theorem api_same (s : St) (a : Api) (h1 : ∀ t e, a ≠ .timerRegister t e) (h2
     unfold api
     dsimp -zeta only
     extract_lets o0 s1 s2
-    have h1 : Same s s1 := ⟨rfl, rfl, rfl, rfl, rfl, rfl, rfl, rfl, SRel.map (nice_eraseEvent e) _⟩
+    have h1 : Same s s1 := ⟨rfl, rfl, rfl, rfl, rfl, rfl, rfl, rfl, SRel.map (nice_eraseEvent e) _, rfl⟩
     have h2 : Same s1 s2 := by
       show Same s1 (if _ then (if _ then _ else _) else _)
       split
@@ -1124,7 +1177,7 @@ theorem api_same (s : St) (a : Api) (h1 : ∀ t e, a ≠ .timerRegister t e) (h2
     · exact Or.inr ⟨same_rawRegisterCore .., Or.inr ⟨_, rfl⟩⟩
   | rawUnregister r => exact Or.inr ⟨by rw [api]; exact same_rawUnregisterCore .., Or.inl rfl⟩
   | quit => exact Or.inr ⟨by rw [api]; same_rfl, Or.inl rfl⟩
-  | invalidateNow => exact Or.inr ⟨by rw [api]; same_rfl, Or.inl rfl⟩
+  | invalidateNow => exact absurd rfl h5
 
 theorem ms_api_other {μ : M} (h : μ.dead = false) (hp : μ.pending = none) (a : Api)
     (h1 : ∀ t e, a ≠ .timerRegister t e) (h2 : ∀ t, a ≠ .timerUnregister t) :
@@ -1135,12 +1188,31 @@ theorem ms_api_other {μ : M} (h : μ.dead = false) (hp : μ.pending = none) (a 
     | (simp [mstep, Ivy.Mon.C04.step, h]; cases μ; simp_all)
 
 theorem ms_inp_other {μ : M} (h : μ.dead = false) (hp : μ.pending = none) (i : Input)
-    (h1 : ∀ a, i ≠ .api a) (h2 : ∀ t, i ≠ .time t) :
+    (h1 : ∀ a, i ≠ .api a) (h2 : ∀ t, i ≠ .time t) (h3 : ∀ r, i ≠ .wret r) :
     mstep μ (.inp i) = .ok μ := by
   cases i <;> first
     | exact absurd rfl (h1 _)
     | exact absurd rfl (h2 _)
+    | exact absurd rfl (h3 _)
     | (simp [mstep, Ivy.Mon.C04.step, h]; cases μ; simp_all)
+
+theorem ms_wret_enosys {μ : M} (h : μ.dead = false) (hp : μ.pending = none) :
+    mstep μ (.inp (.wret .enosys)) = .ok μ := by
+  simp [mstep, Ivy.Mon.C04.step, h]; cases μ; simp_all
+
+theorem ms_wret_eintr {μ : M} (h : μ.dead = false) (hp : μ.pending = none) :
+    mstep μ (.inp (.wret .eintr)) = .ok { μ with fresh := false } := by
+  simp [mstep, Ivy.Mon.C04.step, h]; cases μ; simp_all
+
+theorem ms_wret_events {μ : M} (h : μ.dead = false) (hp : μ.pending = none) (l : List WItem) :
+    mstep μ (.inp (.wret (.events l))) = .ok { μ with fresh := false } := by
+  simp [mstep, Ivy.Mon.C04.step, h]; cases μ; simp_all
+
+/-- a wait returned: the cached clock value is invalid and the monitor's is stale -/
+theorem GoodB.unfresh {μ : M} {s : St} (g : GoodB μ s []) (h : s.timeValid = false) :
+    GoodB { μ with fresh := false } s [] :=
+  ⟨g.alive, g.pend, g.clock, g.timeNN, g.hinv, g.stk, g.bnodup, g.bidx, g.ble, g.reg, g.expNN, g.lastNm, g.kt,
+    g.wait, ⟨(fun e => by rw [h] at e; cases e), (fun e => absurd rfl e), g.fr.2.2⟩⟩
 
 theorem getD_of_getElem? {a : Array Int} {t : Nat} {v : Int} (h : a[t]? = some v) : a.getD t (-1) = v := by
   simp [Array.getD_eq_getD_getElem?, h]
@@ -1175,7 +1247,8 @@ theorem api_timerRegister {μ : M} {s : St} (g : Good μ s) (hpc : s.pc = .user)
         intro u hu
         obtain ⟨_, h0, ho, _⟩ := hoth u hu
         unfold live; rw [h0, ho]
-      refine ⟨gb.alive, gb.pend, gb.clock, gb.timeNN, hinv', ?_, gb.bnodup, ?_, ?_, ?_, ?_, gb.lastNm, gb.kt, ?_⟩
+      refine ⟨gb.alive, gb.pend, gb.clock, gb.timeNN, hinv', ?_, gb.bnodup, ?_, ?_, ?_, ?_, gb.lastNm, gb.kt, ?_,
+        ⟨gb.fr.1, gb.fr.2.1, by simp [needsTV, hpc]⟩⟩
       · exact gb.stk.mono rfl (fun h => h)
       · intro u
         show h'.idx[u]? = some 0 ↔ _
@@ -1240,11 +1313,14 @@ theorem stk_map_set {s : St} {b : List Nat} (h : Stk s b) : s.stack.map (setTime
 theorem GoodB.remove {μ : M} {s s' : St} {b0 b' : List Nat} {t : Nat} (gb : GoodB μ s b0) (ht : t ∈ b0)
     (hheap : s'.heap = { s.heap with idx := s.heap.idx.setIfInBounds t (-1) }) (htime : s'.time = s.time)
     (hla : Nm s'.lastAbs) (hkt : KT s') (hnd : b'.Nodup) (hb' : ∀ u, u ∈ b' ↔ (u ∈ b0 ∧ u ≠ t))
-    (hstk : Stk s' b') (hw : waitArgs s'.pc = none) :
+    (hstk : Stk s' b') (hw : waitArgs s'.pc = none)
+    (htv : needsTV s'.pc = true → s'.timeValid = true) :
     GoodB { μ with reg := μ.reg.filter (·.1 != t) } s' b' := by
   have h0 : s.heap.idx[t]? = some 0 := (gb.bidx t).2 ht
   obtain ⟨f1, f2, f3, f4⟩ := setIdx_facts gb.hinv h0
-  refine ⟨gb.alive, gb.pend, ?_, ?_, ?_, hstk, hnd, ?_, ?_, ?_, ?_, hla, hkt, ?_⟩
+  have hfresh : μ.fresh = true := gb.fr.2.1 (fun e => by rw [e] at ht; cases ht)
+  refine ⟨gb.alive, gb.pend, ?_, ?_, ?_, hstk, hnd, ?_, ?_, ?_, ?_, hla, hkt, ?_,
+    ⟨fun _ => hfresh, fun _ => hfresh, htv⟩⟩
   · rw [htime]; exact gb.clock
   · rw [htime]; exact gb.timeNN
   · rw [hheap]; exact f1
@@ -1311,6 +1387,7 @@ theorem api_timerUnregister {μ : M} {s : St} (g : Good μ s) (hpc : s.pc = .use
       obtain ⟨rest, hst, hnr, hpt⟩ := hrest
       refine Acc.one (ms_ret (μ := { μ with reg := μ.reg.filter (·.1 != t) }) gb.alive gb.pend 0) (Or.inr ⟨b0.erase t, ?_⟩)
       refine gb.remove htb rfl rfl gb.lastNm gb.kt (gb.bnodup.erase t) ?_ ?_ (by simp [waitArgs, hpc])
+        (by simp [needsTV, hpc])
       · intro u
         rw [gb.bnodup.mem_erase_iff]
         exact ⟨fun h => ⟨h.2, h.1⟩, fun h => ⟨h.2, h.1⟩⟩
@@ -1334,7 +1411,8 @@ theorem api_timerUnregister {μ : M} {s : St} (g : Good μ s) (hpc : s.pc = .use
           omega
         · rw [hidx'] at e; cases e
       refine Acc.one (ms_ret (μ := { μ with reg := μ.reg.filter (·.1 != t) }) gb.alive gb.pend 0) (Or.inr ⟨b0, ?_⟩)
-      refine ⟨gb.alive, gb.pend, gb.clock, gb.timeNN, hinv', ?_, gb.bnodup, ?_, ?_, ?_, ?_, gb.lastNm, gb.kt, ?_⟩
+      refine ⟨gb.alive, gb.pend, gb.clock, gb.timeNN, hinv', ?_, gb.bnodup, ?_, ?_, ?_, ?_, gb.lastNm, gb.kt, ?_,
+        ⟨gb.fr.1, gb.fr.2.1, by simp [needsTV, hpc]⟩⟩
       · exact gb.stk.mono rfl (fun h => h)
       · intro u
         show h'.idx[u]? = some 0 ↔ _
@@ -1381,7 +1459,8 @@ theorem api_ok {μ : M} {s : St} (g : Good μ s) (hpc : s.pc = .user) (a : Api) 
     rw [api]
     split
     · next hst =>
-      refine Acc.nil (Or.inr (Good.transfer g0 rfl rfl rfl rfl rfl rfl rfl (fun b hb => ?_) (by simp [waitArgs])))
+      refine Acc.nil (Or.inr (Good.transfer g0 rfl rfl rfl rfl rfl rfl rfl (fun b hb => ?_) (by simp [waitArgs])
+        (fun h => h) (by simp [needsTV])))
       have := hb.notTop (by simp [hst])
       exact Or.inl ⟨this.1, this.2⟩
     · exact Acc.fatal _ _
@@ -1391,7 +1470,12 @@ theorem api_ok {μ : M} {s : St} (g : Good μ s) (hpc : s.pc = .user) (a : Api) 
     split
     · exact Acc.nil (Or.inr g0)
     · exact Acc.nil (Or.inr (by good_pc g0, hpc))
-  rcases api_same s a h1' h2' h3 h4 with ⟨msg, h⟩ | ⟨hs, ho⟩
+  by_cases h5 : a = .invalidateNow
+  · subst h5
+    rw [api]
+    exact Acc.nil (Or.inr (Good.transfer g0 rfl rfl rfl rfl rfl rfl rfl (fun _ => Stk.mono rfl (fun h => h))
+      (by simp [waitArgs, hpc]) (fun h => by cases h) (by simp [needsTV, hpc])))
+  rcases api_same s a h1' h2' h3 h4 h5 with ⟨msg, h⟩ | ⟨hs, ho⟩
   · rw [h]; exact Acc.fatal _ _
   · have g1 := g0.same hs
     rcases ho with ho | ⟨v, ho⟩
@@ -1407,7 +1491,8 @@ theorem foldl_inv {α β : Type} (f : β → α → β) (P : β → Prop) (hf : 
   | [], _, h => h
   | a :: as, b, h => foldl_inv f P hf as (f b a) (hf b a h)
 
-/-- invariant of the event-collection fold of `iv_fd_*_poll` -/
+/-- invariant of the event-collection fold of `iv_fd_*_poll` (`s` is the state at wait return, with
+the cached time already invalidated) -/
 def WP (s : St) (acc : St × List FdId × Bool × Bool) : Prop :=
   Same s { acc.1 with ktimer := s.ktimer } ∧ (acc.2.2.1 = false → acc.1.ktimer = s.ktimer)
 
@@ -1419,9 +1504,12 @@ theorem afterWait_ok {μ : M} {s : St} (g : Good μ s) (abs : Option TS) (km : B
   obtain ⟨hnoT, hb0⟩ := gb.stk.elim (by simp [pcT, hpc])
   subst hb0
   have hwait := gb.wait abs km (by simp [waitArgs, hpc])
-  refine Acc.cons (ms_inp_other gb.alive gb.pend (.wret r) (by simp) (by simp)) ?_
+  have htv0 : abs.isSome = true → s.timeValid = true := by
+    have := gb.fr.2.2
+    simpa [needsTV, hpc] using this
   cases r with
   | enosys =>
+    refine Acc.cons (ms_wret_enosys gb.alive gb.pend) ?_
     unfold afterWait
     dsimp -zeta only
     split
@@ -1434,59 +1522,73 @@ theorem afterWait_ok {μ : M} {s : St} (g : Good μ s) (abs : Option TS) (km : B
     · next hm =>
       have hgood : ∀ s1 : St, s1.heap = s.heap → s1.time = s.time → s1.lastAbs = s.lastAbs →
           s1.ktimer = s.ktimer → s1.timerfd = s.timerfd → s1.method = .poll → s1.stack = s.stack →
-          (waitArgs s1.pc = some (abs, km)) → Good μ s1 := by
-        intro s1 e1 e2 e3 e5 e6 e7 e8 e10
-        refine ⟨[], gb.transfer e1 e2 (e3 ▸ gb.lastNm) ?_ (Or.inl ⟨e8 ▸ hnoT, rfl⟩) ?_⟩
+          (waitArgs s1.pc = some (abs, km)) → s1.timeValid = false → needsTV s1.pc = false → Good μ s1 := by
+        intro s1 e1 e2 e3 e5 e6 e7 e8 e10 e11 e12
+        refine ⟨[], gb.transfer e1 e2 (e3 ▸ gb.lastNm) ?_ (Or.inl ⟨e8 ▸ hnoT, rfl⟩) ?_
+          (fun h => by rw [e11] at h; cases h) (fun h => by rw [e12] at h; cases h)⟩
         · intro a; rw [e7] at a; cases a
         · intro abs' km' h
           rw [e10] at h; cases h
           exact hwait.congr e1 e6 e5 (fun a => by rw [e7] at a; cases a)
       extract_lets s1
       split
-      · exact Acc.nil (Or.inr (hgood _ rfl rfl rfl rfl rfl rfl rfl (by simp [waitArgs])))
-      · exact Acc.nil (Or.inr (hgood _ rfl rfl rfl rfl rfl rfl rfl (by simp [waitArgs, goto])))
+      · exact Acc.nil (Or.inr (hgood _ rfl rfl rfl rfl rfl rfl rfl (by simp [waitArgs]) rfl (by simp [needsTV])))
+      · next hns =>
+        exact Acc.nil (Or.inr (hgood _ rfl rfl rfl rfl rfl rfl rfl (by simp [waitArgs, goto]) rfl
+          (by simpa [needsTV, goto] using hns)))
     · exact Acc.fatal _ _
   | eintr =>
+    refine Acc.cons (ms_wret_eintr gb.alive gb.pend) ?_
     unfold afterWait
     dsimp -zeta only
     extract_lets s1 rt s2
-    have hs2 : s2.heap = s.heap ∧ s2.time = s.time ∧ s2.lastAbs = s.lastAbs ∧ s2.stack = s.stack ∧ KT s2 := by
+    have hs2 : s2.heap = s.heap ∧ s2.time = s.time ∧ s2.lastAbs = s.lastAbs ∧ s2.stack = s.stack ∧ KT s2 ∧
+        s2.timeValid = false := by
       show (if _ then _ else _ : St).heap = _ ∧ (if _ then _ else _ : St).time = _ ∧
-        (if _ then _ else _ : St).lastAbs = _ ∧ (if _ then _ else _ : St).stack = _ ∧ KT (if _ then _ else _)
+        (if _ then _ else _ : St).lastAbs = _ ∧ (if _ then _ else _ : St).stack = _ ∧ KT (if _ then _ else _) ∧
+        (if _ then _ else _ : St).timeValid = _
       split
-      · refine ⟨rfl, rfl, rfl, rfl, ?_⟩
+      · refine ⟨rfl, rfl, rfl, rfl, ?_, rfl⟩
         intro _ (h : 0 = 5); omega
-      · exact ⟨rfl, rfl, rfl, rfl, gb.kt⟩
-    obtain ⟨e1, e2, e3, e4, e5⟩ := hs2
-    refine Acc.nil (Or.inr ⟨[], gb.transfer e1 e2 (e3 ▸ gb.lastNm) e5 (Or.inl ⟨?_, rfl⟩) ?_⟩)
+      · exact ⟨rfl, rfl, rfl, rfl, gb.kt, rfl⟩
+    obtain ⟨e1, e2, e3, e4, e5, e6⟩ := hs2
+    refine Acc.nil (Or.inr ⟨[], GoodB.unfresh (gb.transfer e1 e2 (e3 ▸ gb.lastNm) e5 (Or.inl ⟨?_, rfl⟩) ?_
+      (fun h => ?_) (by simp [needsTV, goto])) e6⟩)
     · show noT (_ :: s2.stack)
       rw [e4]; simp [isT, hnoT]
     · intro abs' km' h; simp [waitArgs, goto] at h
+    · have h' : s2.timeValid = true := h
+      rw [e6] at h'; cases h'
   | events l =>
+    refine Acc.cons (ms_wret_events gb.alive gb.pend l) ?_
     unfold afterWait
     dsimp only
     generalize hacc : List.foldl _ _ l = acc
-    have hP : WP s acc := by
+    have hP : WP { s with timeValid := false } acc := by
       rw [← hacc]
-      refine foldl_inv _ (WP s) ?_ l _ ?_
+      refine foldl_inv _ (WP { s with timeValid := false }) ?_ l _ ?_
       · rintro ⟨s1, a, rt, re⟩ it ⟨h1, h2⟩
         cases it with
-        | kick => exact ⟨⟨h1.heap, h1.time, rfl, h1.timerfd, h1.lastAbs, h1.lastAbsCount, h1.method, h1.pc, h1.stack⟩, h2⟩
+        | kick =>
+          exact ⟨⟨h1.heap, h1.time, rfl, h1.timerfd, h1.lastAbs, h1.lastAbsCount, h1.method, h1.pc, h1.stack,
+            h1.timeValid⟩, h2⟩
         | ktimer =>
-          refine ⟨⟨h1.heap, h1.time, rfl, h1.timerfd, h1.lastAbs, h1.lastAbsCount, h1.method, h1.pc, h1.stack⟩, ?_⟩
+          refine ⟨⟨h1.heap, h1.time, rfl, h1.timerfd, h1.lastAbs, h1.lastAbsCount, h1.method, h1.pc, h1.stack,
+            h1.timeValid⟩, ?_⟩
           intro h; cases h
         | fd f ev =>
           have hs := same_activate s1 a f ev
           refine ⟨⟨hs.heap.trans h1.heap, hs.time.trans h1.time, rfl, hs.timerfd.trans h1.timerfd,
             hs.lastAbs.trans h1.lastAbs, hs.lastAbsCount.trans h1.lastAbsCount, hs.method.trans h1.method,
-            hs.pc.trans h1.pc, h1.stack.trans hs.stack⟩, ?_⟩
+            hs.pc.trans h1.pc, h1.stack.trans hs.stack, hs.timeValid.trans h1.timeValid⟩, ?_⟩
           intro h
           exact hs.ktimer.trans (h2 h)
-      · exact ⟨⟨rfl, rfl, rfl, rfl, rfl, rfl, rfl, rfl, SRel.refl _⟩, fun _ => rfl⟩
+      · exact ⟨⟨rfl, rfl, rfl, rfl, rfl, rfl, rfl, rfl, SRel.refl _, rfl⟩, fun _ => rfl⟩
     clear hacc
     obtain ⟨s1, active, rt, runEv⟩ := acc
     obtain ⟨h1, h2⟩ := hP
     dsimp only at h1 h2 ⊢
+    have htv1 : s1.timeValid = false := h1.timeValid
     have hkt1 : KT (if (km && rt) = true then { s1 with lastAbsCount := 0 } else s1) := by
       split
       · intro _ (h : 0 = 5); omega
@@ -1508,14 +1610,17 @@ theorem afterWait_ok {μ : M} {s : St} (g : Good μ s) (abs : Option TS) (km : B
     have e : (if (km && rt) = true then { s1 with lastAbsCount := 0 } else s1).heap = s1.heap ∧
         (if (km && rt) = true then { s1 with lastAbsCount := 0 } else s1).time = s1.time ∧
         (if (km && rt) = true then { s1 with lastAbsCount := 0 } else s1).lastAbs = s1.lastAbs ∧
-        (if (km && rt) = true then { s1 with lastAbsCount := 0 } else s1).stack = s1.stack := by
-      split <;> exact ⟨rfl, rfl, rfl, rfl⟩
+        (if (km && rt) = true then { s1 with lastAbsCount := 0 } else s1).stack = s1.stack ∧
+        (if (km && rt) = true then { s1 with lastAbsCount := 0 } else s1).timeValid = s1.timeValid := by
+      split <;> exact ⟨rfl, rfl, rfl, rfl, rfl⟩
     generalize (if (km && rt) = true then { s1 with lastAbsCount := 0 } else s1) = s2 at e hkt1 ⊢
-    obtain ⟨e1, e2, e3, e4⟩ := e
-    have hfin : ∀ b : Block, waitArgs (.run b) = none →
-        Good μ (goto { s2 with stack := .poll active rt :: s2.stack } b).1 := by
-      intro b hb
-      refine ⟨[], gb.transfer (e1.trans h1.heap) (e2.trans h1.time) ?_ hkt1 (Or.inl ⟨?_, rfl⟩) ?_⟩
+    obtain ⟨e1, e2, e3, e4, e5⟩ := e
+    have e6 : s2.timeValid = false := e5.trans htv1
+    have hfin : ∀ b : Block, waitArgs (.run b) = none → needsTV (.run b) = false →
+        Good { μ with fresh := false } (goto { s2 with stack := .poll active rt :: s2.stack } b).1 := by
+      intro b hb hb2
+      refine ⟨[], GoodB.unfresh (gb.transfer (e1.trans h1.heap) (e2.trans h1.time) ?_ hkt1 (Or.inl ⟨?_, rfl⟩) ?_
+        (fun h => ?_) (fun h => ?_)) e6⟩
       · show Nm s2.lastAbs
         rw [e3, h1.lastAbs]; exact gb.lastNm
       · show noT (_ :: s2.stack)
@@ -1523,9 +1628,13 @@ theorem afterWait_ok {μ : M} {s : St} (g : Good μ s) (abs : Option TS) (km : B
         have := h1.stack.noT hnoT
         simp [isT]; exact this
       · intro abs' km' h; simp only [goto] at h; rw [hb] at h; cases h
+      · have h' : s2.timeValid = true := h
+        rw [e6] at h'; cases h'
+      · have h' : needsTV (.run b) = true := h
+        rw [hb2] at h'; cases h'
     split
-    · exact Acc.nil (Or.inr (hfin _ rfl))
-    · exact Acc.nil (Or.inr (hfin _ rfl))
+    · exact Acc.nil (Or.inr (hfin _ rfl rfl))
+    · exact Acc.nil (Or.inr (hfin _ rfl rfl))
 
 theorem le_of_not_gt {a b : TS} (h : a.gt b = false) : a.le b := h
 
@@ -1542,40 +1651,43 @@ theorem input_ok {μ : M} {s s' : St} {outs : List Out} (g : Good μ s) (i : Inp
     exact api_ok g0 hpc a henv.1
   · -- handlerEnd
     next hpc =>
-    have hm := ms_inp_other gb.alive gb.pend .handlerEnd (by simp) (by simp)
+    have hm := ms_inp_other gb.alive gb.pend .handlerEnd (by simp) (by simp) (by simp)
     split at hin
     · cases hin
     · obtain ⟨rfl, rfl⟩ := some_pair_inj hin; exact Acc.cons hm (Acc.nil (Or.inr (by good_pc g0, hpc)))
     · next hst =>
       obtain ⟨rfl, rfl⟩ := some_pair_inj hin
-      refine Acc.cons hm (Acc.nil (Or.inr (Good.transfer g0 rfl rfl rfl rfl rfl rfl rfl (fun b hb => ?_) (by simp [waitArgs, goto]))))
+      refine Acc.cons hm (Acc.nil (Or.inr (Good.transfer g0 rfl rfl rfl rfl rfl rfl rfl (fun b hb => ?_) (by simp [waitArgs, goto])
+        (fun h => h) (by simp [needsTV, goto]))))
       have := hb.notTop (by simp [hst])
       exact Or.inl ⟨this.1, this.2⟩
     · next hst =>
       obtain ⟨rfl, rfl⟩ := some_pair_inj hin
-      refine Acc.cons hm (Acc.nil (Or.inr (Good.transfer g0 rfl rfl rfl rfl rfl rfl rfl (fun b hb => ?_) (by simp [waitArgs, goto]))))
+      refine Acc.cons hm (Acc.nil (Or.inr (Good.transfer g0 rfl rfl rfl rfl rfl rfl rfl (fun b hb => ?_) (by simp [waitArgs, goto])
+        (fun h => h) (by simp [needsTV, goto]))))
       have := hb.notTop (by simp [hst])
       exact Or.inl ⟨this.1, this.2⟩
     · next hst =>
       obtain ⟨rfl, rfl⟩ := some_pair_inj hin
-      refine Acc.cons hm (Acc.nil (Or.inr (Good.transfer g0 rfl rfl rfl rfl rfl rfl rfl (fun b hb => ?_) (by simp [waitArgs, goto]))))
+      refine Acc.cons hm (Acc.nil (Or.inr (Good.transfer g0 rfl rfl rfl rfl rfl rfl rfl (fun b hb => ?_) (by simp [waitArgs, goto])
+        (fun h => h) (by simp [needsTV, goto]))))
       have := hb.notTop (by simp [hst])
       exact Or.inl ⟨this.1, this.2⟩
     · cases hin
   · -- free
     next k id hpc =>
     obtain ⟨rfl, rfl⟩ := some_pair_inj hin
-    exact Acc.cons (ms_inp_other gb.alive gb.pend _ (by simp) (by simp)) (Acc.nil (Or.inr (g0.same (same_freeObj s k id))))
+    exact Acc.cons (ms_inp_other gb.alive gb.pend _ (by simp) (by simp) (by simp)) (Acc.nil (Or.inr (g0.same (same_freeObj s k id))))
   · -- init
     next k id hpc =>
     obtain ⟨rfl, rfl⟩ := some_pair_inj hin
-    exact Acc.cons (ms_inp_other gb.alive gb.pend _ (by simp) (by simp)) (Acc.nil (Or.inr (g0.same (same_initObj s k id))))
+    exact Acc.cons (ms_inp_other gb.alive gb.pend _ (by simp) (by simp) (by simp)) (Acc.nil (Or.inr (g0.same (same_initObj s k id))))
   · -- time
     next k t hpc =>
     obtain ⟨rfl, rfl⟩ := some_pair_inj hin
     simp only [envOk, Bool.and_eq_true, decide_eq_true_eq, Bool.not_eq_true'] at henv
     obtain ⟨⟨⟨t1, t2⟩, t3⟩, t4⟩ := henv
-    have hm : mstep μ (.inp (.time t)) = .ok { μ with clock := t } := by
+    have hm : mstep μ (.inp (.time t)) = .ok { μ with clock := t, fresh := true } := by
       have hp := gb.pend
       simp [mstep, Ivy.Mon.C04.step, gb.alive]
       cases μ; simp_all
@@ -1583,9 +1695,10 @@ theorem input_ok {μ : M} {s s' : St} {outs : List Out} (g : Good μ s) (i : Inp
     have hgood : ∀ s1 : St, s1.heap = s.heap → s1.time = t → s1.lastAbs = s.lastAbs → s1.lastAbsCount = s.lastAbsCount →
         s1.ktimer = s.ktimer → s1.timerfd = s.timerfd → s1.method = s.method → s1.stack = s.stack →
         (pcT s.pc → pcT s1.pc) → (waitArgs s1.pc = none ∨ waitArgs s1.pc = waitArgs s.pc) →
-        GoodB { μ with clock := t } s1 b0 := by
-      intro s1 e1 e2 e3 e4 e5 e6 e7 e8 e9 e10
-      refine ⟨gb.alive, gb.pend, e2.symm, ?_, ?_, gb.stk.mono e8 e9, gb.bnodup, ?_, ?_, ?_, ?_, ?_, ?_, ?_⟩
+        s1.timeValid = true → GoodB { μ with clock := t, fresh := true } s1 b0 := by
+      intro s1 e1 e2 e3 e4 e5 e6 e7 e8 e9 e10 e11
+      refine ⟨gb.alive, gb.pend, e2.symm, ?_, ?_, gb.stk.mono e8 e9, gb.bnodup, ?_, ?_, ?_, ?_, ?_, ?_, ?_,
+        ⟨fun _ => rfl, fun _ => rfl, fun _ => e11⟩⟩
       · rw [e2]; exact ⟨t1, t2, t3⟩
       · rw [e1]; exact gb.hinv
       · rw [e1]; exact gb.bidx
@@ -1604,16 +1717,16 @@ theorem input_ok {μ : M} {s s' : St} {outs : List Out} (g : Good μ s) (i : Inp
     unfold afterTime
     simp only [goto]
     split
-    · exact Acc.nil (Or.inr ⟨b0, hgood _ rfl rfl rfl rfl rfl rfl rfl rfl (by simp [pcT, hpc]) (by simp [waitArgs])⟩)
-    · exact Acc.nil (Or.inr ⟨b0, hgood _ rfl rfl rfl rfl rfl rfl rfl rfl (by simp [pcT, hpc]) (by simp [waitArgs, hpc])⟩)
-    · exact Acc.nil (Or.inr ⟨b0, hgood _ rfl rfl rfl rfl rfl rfl rfl rfl (by simp [pcT, hpc]) (by simp [waitArgs])⟩)
+    · exact Acc.nil (Or.inr ⟨b0, hgood _ rfl rfl rfl rfl rfl rfl rfl rfl (by simp [pcT, hpc]) (by simp [waitArgs]) rfl⟩)
+    · exact Acc.nil (Or.inr ⟨b0, hgood _ rfl rfl rfl rfl rfl rfl rfl rfl (by simp [pcT, hpc]) (by simp [waitArgs, hpc]) rfl⟩)
+    · exact Acc.nil (Or.inr ⟨b0, hgood _ rfl rfl rfl rfl rfl rfl rfl rfl (by simp [pcT, hpc]) (by simp [waitArgs]) rfl⟩)
   · -- wret
     next abs km r hpc =>
     obtain ⟨rfl, rfl⟩ := some_pair_inj hin
     exact afterWait_ok g0 abs km hpc r
   · -- xpost
     next abs km e hpc =>
-    have hm := ms_inp_other gb.alive gb.pend (.xpost e) (by simp) (by simp)
+    have hm := ms_inp_other gb.alive gb.pend (.xpost e) (by simp) (by simp) (by simp)
     split at hin
     · obtain ⟨rfl, rfl⟩ := some_pair_inj hin; exact Acc.cons hm (Acc.nil (Or.inr g0))
     · cases hin
@@ -1622,7 +1735,7 @@ theorem input_ok {μ : M} {s s' : St} {outs : List Out} (g : Good μ s) (i : Inp
       split <;> same_rfl
   · -- rawRead
     next r okk hpc =>
-    have hm := ms_inp_other gb.alive gb.pend (.rawRead okk) (by simp) (by simp)
+    have hm := ms_inp_other gb.alive gb.pend (.rawRead okk) (by simp) (by simp) (by simp)
     split at hin
     · obtain ⟨rfl, rfl⟩ := some_pair_inj hin; exact Acc.cons hm (Acc.nil (Or.inr (by good_pc g0, hpc)))
     · split at hin
@@ -1675,7 +1788,8 @@ theorem good_init (m : Method) (ntimers : Nat) (timerfdAvail pwait2 : Bool) :
     · have := hidx t _ e; omega
     · have := hidx t _ e; omega
   refine ⟨[], rfl, rfl, rfl, (by simp [NN, St.init]), Ivy.Props.C05.init_inv ntimers, Or.inl ⟨by simp [St.init], rfl⟩,
-    List.nodup_nil, ?_, ?_, ?_, ?_, (by simp [Nm, St.init]), ?_, ?_⟩
+    List.nodup_nil, ?_, ?_, ?_, ?_, (by simp [Nm, St.init]), ?_, ?_,
+    ⟨by simp [St.init], by simp, by simp [needsTV, St.init]⟩⟩
   · intro t
     constructor
     · intro h; have := hidx t _ h; omega
@@ -1743,5 +1857,38 @@ example :
     Ivy.Mon.C04.verdict (runTrace 300 (St.init .epollTimerfd 1 true true) nvInputsK).1 = none :=
   ⟨by decide +kernel, by decide +kernel, by decide +kernel,
    monitor_accepts _ _ _ _ _ _ (runTrace_exec 300 _ nvInputsK)⟩
+
+/-- an interrupted wait: the loop reads the clock again before the next wait and before the handler -/
+def nvInputsE : List Input :=
+  [.api (.timerRegister 0 ⟨1, 0⟩), .api .main, .time ⟨0, 5⟩, .wret .eintr, .time ⟨0, 6⟩,
+   .wret (.events []), .time ⟨1, 7⟩, .handlerEnd]
+
+def isEintr : Ev → Bool
+  | .inp (.wret .eintr) => true
+  | _ => false
+
+example :
+    (runTrace 200 (St.init .epollTimerfd 1 true true) nvInputsE).1.any isEintr = true ∧
+    ((runTrace 200 (St.init .epollTimerfd 1 true true) nvInputsE).1.filter isWait).length = 2 ∧
+    (runTrace 200 (St.init .epollTimerfd 1 true true) nvInputsE).1.any isTimerCb = true ∧
+    (runTrace 200 (St.init .epollTimerfd 1 true true) nvInputsE).1.any isMainRet = true ∧
+    Ivy.Mon.C04.verdict (runTrace 200 (St.init .epollTimerfd 1 true true) nvInputsE).1 = none :=
+  ⟨by decide +kernel, by decide +kernel, by decide +kernel, by decide +kernel,
+   monitor_accepts _ _ _ _ _ _ (runTrace_exec 200 _ nvInputsE)⟩
+
+/-- the monitor rejects a loop that keeps the clock value read before an interrupted wait:
+the next wait's finite timeout is computed from the stale value … -/
+example : (Ivy.Mon.C04.verdict
+    [.inp (.api (.timerRegister 0 ⟨1, 0⟩)), .out (.ret 0), .inp (.api .main), .inp (.time ⟨0, 5⟩),
+     .out (.wait "epoll_pwait2" (.ns 999999995) [] none none), .inp (.wret .eintr),
+     .out (.wait "epoll_pwait2" (.ns 999999995) [] none none)]).isSome = true := by decide +kernel
+
+/-- … or a timer handler is entered against the stale value -/
+example : (Ivy.Mon.C04.verdict
+    [.inp (.api (.timerRegister 1 ⟨0, 9⟩)), .out (.ret 0), .inp (.api .main), .inp (.time ⟨0, 5⟩),
+     .out (.wait "epoll_pwait2" (.ns 4) [(3, ⟨true, false, false⟩)] none none),
+     .inp (.wret (.events [.fd 3 { kin := true }])), .out (.cb (.fd 3 1)),
+     .inp (.api (.timerRegister 0 ⟨0, 2⟩)), .out (.ret 0), .inp .handlerEnd,
+     .out (.cb (.timer 0))]).isSome = true := by decide +kernel
 
 end Ivy.L1.ProofsC04
